@@ -78,14 +78,14 @@ class Rule:
         return 1 <= n <= max_matchers
 
     def matches(self, path):
-        p = path.encode("utf-8")
+        p = path.encode("utf-8", "surrogateescape")
         if self.ci:
             p = _fold(p)
         for k, v in self.ms:
             if k == "containsAllOf":
-                ops = [x.encode("utf-8") for x in v]
+                ops = [x.encode("utf-8", "surrogateescape") for x in v]
             else:
-                ops = [v.encode("utf-8")]
+                ops = [v.encode("utf-8", "surrogateescape")]
             if self.ci:
                 ops = [_fold(o) for o in ops]
             o = ops[0]
@@ -125,7 +125,7 @@ def _hs_hash32(key, order):
 
 def string_hash(s, order):
     h = 0
-    for c in s.encode("utf-8"):
+    for c in s.encode("utf-8", "surrogateescape"):
         if c >= 128:
             c = (c - 256) & 0xffffffff   # plain char is signed on x86
         h = (((c + (h << 6)) + (h << 16)) - h) & 0xffffffff
